@@ -35,7 +35,20 @@ def acceptor_reject(triple, messages_after=1):
         calls.append(type(msg).__name__)
     svc_fn.sop_classes = [svc.VERIFICATION]
 
+    how = (result + 2 * source + 3 * diag) % 3
+
     def on_rq(asce, assoc):
+        # what counts is what the error object CARRIES when it is raised, however it came to carry it
+        if how == 1:
+            err = exceptions.AssociationRejectedError((result + 1) % 256, (source + 1) % 256, (diag + 1) % 256)
+            err.result, err.source, err.diagnostic = result, source, diag       # refined after construction
+            raise err
+        if how == 2:
+            class PolicyRefusal(exceptions.AssociationRejectedError):
+                def __init__(self):
+                    exceptions.AssociationRejectedError.__init__(self, 1, 1, 1)
+                    self.result, self.source, self.diagnostic = result, source, diag
+            raise PolicyRefusal()
         raise exceptions.AssociationRejectedError(result, source, diag)
     ae = svc.make_server({'on_association_request': on_rq}, [svc_fn])
     msgs = [({0x0002: svc.VERIFICATION, 0x0100: 0x0030, 0x0110: 1}, None, 1)] * messages_after
